@@ -31,6 +31,8 @@ type ARow struct {
 	O  *string
 	M  map[string]int32
 	D  string `parquet:",dict"`
+	// a fixed-size column reconstructed into a Go slice
+	F []byte `parquet:",decimal(2:20)"`
 }
 
 func c16Rows(base, n int) []ARow {
@@ -38,6 +40,7 @@ func c16Rows(base, n int) []ARow {
 	for i := range rows {
 		k := base + i
 		r := ARow{ID: int64(k), S: fmt.Sprintf("string-%d-%s", k, strings.Repeat("s", k%7)), B: []byte(fmt.Sprintf("bytes-%d", k)), D: fmt.Sprintf("d%d", k%3)}
+		r.F = []byte(fmt.Sprintf("%09d", k)) // FIXED_LEN_BYTE_ARRAY(9)
 		for j := range r.U {
 			r.U[j] = byte(k + j)
 		}
@@ -137,6 +140,8 @@ var c16Takes = []string{"Read[T]", "GenericReader.Read(retained)", "Rows.ReadRow
 	// rows read after a seek that lands strictly inside a page (the page is sliced)
 	"GenericReader.Read(retained, after SeekToRow(1))", "GenericReader.Read(retained, after SeekToRow(2))", "GenericReader.Read(retained, after SeekToRow(4))",
 	"Rows.ReadRows+Clone(after SeekToRow(2))", "Rows.ReadRows(5 rows after SeekToRow(2))",
+	// the reader is reset first, the batch then spans several pages of every column
+	"GenericReader.Read(retained, after Reset)", "Reader.ReadRows+Clone(after Reset)",
 	// rows read from an in-memory row group, which is then reset and refilled
 	"GenericRowGroupReader(GenericBuffer).Read(retained)", "GenericRowGroupReader(RowBuffer).Read(retained)"}
 
@@ -283,6 +288,39 @@ func c16Run(x *engine.X) {
 			return
 		}
 		check = cmp("retained row", canonRows(kept), func() []string { return canonRows(kept) })
+	case "GenericReader.Read(retained, after Reset)":
+		gr = parquet.NewGenericReader[ARow](open(false))
+		gr.Read(make([]ARow, 2))
+		gr.Reset()
+		batch = make([]ARow, 7)
+		n, err := gr.Read(batch)
+		if err != nil && err != io.EOF {
+			x.Failf("harness", "read", "%v", err)
+			return
+		}
+		kept := append([]ARow(nil), batch[:n]...)
+		if !expectGo(0, kept) {
+			return
+		}
+		check = cmp("retained row", canonRows(kept), func() []string { return canonRows(kept) })
+	case "Reader.ReadRows+Clone(after Reset)":
+		reader = parquet.NewReader(open(false))
+		rowBuf = make([]parquet.Row, 7)
+		reader.ReadRows(rowBuf[:2])
+		reader.Reset()
+		n, err := reader.ReadRows(rowBuf)
+		if err != nil && err != io.EOF {
+			x.Failf("harness", "read", "%v", err)
+			return
+		}
+		if !expectRows(0, rowBuf[:n]) {
+			return
+		}
+		held := make([]parquet.Row, n)
+		for i := range held {
+			held[i] = rowBuf[i].Clone()
+		}
+		check = cmp("cloned parquet.Row", streamOf(held), func() []string { return streamOf(held) })
 	case "GenericRowGroupReader(GenericBuffer).Read(retained)", "GenericRowGroupReader(RowBuffer).Read(retained)":
 		src := c16Rows(0, 9)
 		var rg parquet.RowGroup
@@ -545,7 +583,7 @@ func init() {
 	Register(&engine.Prop{
 		ID:    "C16",
 		Level: "exploration",
-		Rule: "12 hand-over kinds (Read[T]; GenericReader.Read into a reused batch with shallow copies retained; Rows.ReadRows uncloned and cloned; async Reader.ReadRows cloned; page Values cloned; caller rows passed to GenericWriter.Write / Writer.WriteRows / RowBuffer.WriteRows / SortingWriter.WriteRows / GenericBuffer.Write+sort / FilterRowWriter.WriteRows) x 5 file shapes (plain/dict/delta, v1/v2, snappy, 2 row groups; strings, bytes, uuid, lists, optional, map, dictionary column, several pages) x ALL sequences of <=2 (3 thorough) disturbing operations from {read more into the same batch, SeekToRow(0)+read, Reset, Close, read another file, write another file, GC}; run with poison-on-release and always-reuse pools; a deep snapshot taken at hand-over must equal the held values after every step; " +
+		Rule: "21 hand-over kinds (Read[T]; GenericReader.Read into a reused batch with shallow copies retained; Rows.ReadRows uncloned and cloned; async Reader.ReadRows cloned; page Values cloned; caller rows passed to GenericWriter.Write / Writer.WriteRows / RowBuffer.WriteRows / SortingWriter.WriteRows / GenericBuffer.Write+sort / FilterRowWriter.WriteRows; reads after a SeekToRow that lands inside a page; reads after a Reset whose batch spans several pages; rows read from a GenericBuffer / RowBuffer row group which is then reset and refilled; rows handed over after a seek or a Reset must also BE the rows written) x 5 file shapes (plain/dict/delta, v1/v2, snappy, 2 row groups; strings, bytes, uuid, a fixed-size column read into a []byte, lists, optional, map, dictionary column, several pages) x ALL sequences of <=2 (3 thorough) disturbing operations from {read more into the same batch, SeekToRow(0)+read, Reset, Close, read another file, write another file, GC}; run with poison-on-release and always-reuse pools; a deep snapshot taken at hand-over must equal the held values after every step; " +
 			"non-trivial = at least one disturbing operation",
 		Assumptions: []string{
 			"uncloned parquet Rows are only compared until the next call on the reader they came from",
